@@ -1,5 +1,48 @@
-"""(stub)"""
+"""Contracts for fakesnow/server.py (C17)."""
+from __future__ import annotations
+
+from pyvc.types import DictT, ListT, NoneType, Opt, TupleT
+from pyvc.world import ClassSchema, Contract
 
 
 def install(w):
-    pass
+    from starlette.requests import Request
+
+    import fakesnow.conn
+    import fakesnow.server as srv
+
+    Conn = fakesnow.conn.FakeSnowflakeConnection
+    w.classes.add(Request)
+    w.classes.add(srv.ServerError)
+    # the module-level token -> connection map is mutable state: symbolic, never read from the real object
+    w.symbolic_global(srv.sessions, DictT(str, Conn))
+    w.schemas[Request] = ClassSchema(Request, fields={"headers": DictT(str, str), "query_params": DictT(str, str)})
+    w.schemas[srv.ServerError] = ClassSchema(srv.ServerError, fields={"status_code": int, "code": str, "message": str})
+
+    AUTH = "old(request.headers.get('Authorization'))"
+    w.add_contract(
+        Contract(
+            "fakesnow.server.to_conn",
+            params={"request": Request},
+            requires=[],
+            result=Conn,
+            raises={
+                srv.ServerError: {
+                    # refused exactly when the header is missing/empty or the token it carries is unknown
+                    "when": f"not {AUTH} or not old(sessions.get({AUTH}[17:-1]))",
+                    "ensures": {
+                        "C17.token.status": "exc.status_code == 401",
+                        "C17.token.code": f"exc.code == ('390103' if not {AUTH} else '390104')",
+                    },
+                    "modifies": [],
+                }
+            },
+            modifies=[],
+            ensures={
+                # the connection mapped to the token between 'Snowflake Token="' and the closing quote
+                "C17.token.lookup": f"result is old(sessions.get({AUTH}[17:-1]))",
+                "C17.token.slice": f"forall(0, 1, lambda z: implies({AUTH}.startswith('Snowflake Token=\\\"') and {AUTH}.endswith('\\\"') and len({AUTH}) >= 18, 'Snowflake Token=\\\"' + {AUTH}[17:-1] + '\\\"' == {AUTH}))",
+            },
+            props=["C17"],
+        )
+    )
